@@ -7,7 +7,7 @@ checker, `Eval vm_compute`) and with a python Fraction mirror of that model (cro
 Coq model inside Coq on every run); (4) implementation-side property checks (closed diffusion-only
 inventory, exact advective shift, range boundedness, inventory with reactive solids).
 """
-import json, os, re, sys
+import json, math, os, re, sys
 from fractions import Fraction as Fr
 import vlib
 
@@ -161,7 +161,7 @@ def transport_block(case, extra=""):
     s += " -flow_direction %s\n" % fl
     s += " -boundary_conditions %s %s\n" % (bc[case["bcf"]], bc[case["bcl"]])
     s += " -correct_disp %s\n" % ("true" if case["corrd"] else "false")
-    s += " -punch_cells 0-%d\n -punch_frequency 1\n -print_frequency 1000000\n -warnings true\n" % (n + 1)
+    s += " -punch_cells 0-%d\n -punch_frequency 1\n -print_frequency 1000000\n -warnings true\n" % case.get("punch_to", n + 1)
     s += extra
     return s + "END\n"
 
@@ -319,7 +319,7 @@ def shift_slack(cfg, nmix, ms, after):
     return [Fr(x) for x in e]
 
 
-def compare_tracer_case(case, res, collect=None):
+def compare_tracer_case(case, res, collect=None, elcols=None):
     """stepwise comparison with the python mirror: the state the implementation reported after shift s-1 is
     pushed through one exact model shift and compared with what it reported after shift s.
     collect (list) receives (column, shift, prev, cL, cR, obs, tol) tuples for the Coq checker."""
@@ -338,7 +338,7 @@ def compare_tracer_case(case, res, collect=None):
         return dict(status="mismatch", what="nmix", observed=rn, expected=nmix, detail="maxmix=%s" % float(maxmix))
     isol, init, steps = parse_rows(res)
     n = case["n"]
-    cols = ["m" + t for t in TRACERS] + ["cb"]
+    cols = list(elcols or ["m" + t for t in TRACERS]) + ["cb"]
     if nmix == 0 and case["ishift"] == 0:
         return dict(status="ok-nothing-moves", nmix=0, detail="")
     try:
@@ -440,5 +440,432 @@ def coq_run_cases(terms, shards=6, timeout=900):
     return out, logs
 
 
+# ----------------------------------------------------------------------------- chemistry-rich columns (implementation-side checks)
+
+RICH_ELS = ["Na", "K", "Ca", "Mg", "Cl", "S", "C", "N"]
+RICH_COLS = [("m" + e, 'TOTMOLE("%s")' % e) for e in RICH_ELS] + [("cb", "CHARGE_BALANCE"), ("mH", 'TOTMOLE("H")'),
+                                                                  ("mO", 'TOTMOLE("O")'), ("pH", '-LA("H+")'), ("w", 'TOT("water")')]
+SYS_ELS = ["Na", "K", "Ca", "Mg", "Cl", "S", "C", "H", "O"]
+SYS_COLS = [("s" + e, 'SYS("%s")' % e) for e in SYS_ELS]
+# the element-name prefix families of the multi_D negative-concentration repair (see notes/C11.md, finding 1)
+PREFIX_FAMILIES = [["mC", "mCa", "mCl"], ["mN", "mNa"]]
+
+
+def rich_solution(rng, k, water=None, lo=0.5, hi=20.0):
+    """charge-balanced solution with mmol-range concentrations (the balancing ion gets `charge`)"""
+    cat = {"Na": 1, "K": 1, "Ca": 2, "Mg": 2}
+    an = {"Cl": 1, "S(6)": 2, "Alkalinity": 1, "N(5)": 1}
+    conc = {}
+    for e in list(cat) + list(an):
+        if rng.random() < 0.75:
+            conc[e] = float("%.4g" % (10 ** rng.uniform(math.log10(lo), math.log10(hi))))
+    pos = sum(cat[e] * conc.get(e, 0) for e in cat)
+    neg = sum(an[e] * conc.get(e, 0) for e in an)
+    if pos >= neg:
+        conc["Cl"] = float("%.4g" % (conc.get("Cl", 0) + (pos - neg) + 1.0))
+        bal = "Cl"
+    else:
+        conc["Na"] = float("%.4g" % (conc.get("Na", 0) + (neg - pos) + 1.0))
+        bal = "Na"
+    t = "SOLUTION %d\n units mmol/kgw\n pH %.2f\n temp 25\n" % (k, rng.uniform(6.3, 8.3))
+    for e in list(cat) + list(an):
+        if e in conc:
+            t += " %s %s%s\n" % (e, dec(conc[e]), " charge" if e == bal else "")
+    if water:
+        t += " -water %s\n" % water
+    return t
+
+
+def build_input(case):
+    txt = "KNOBS\n -convergence_tolerance 1e-12\nPRINT\n -reset false\n" + sel_block(case["cols"])
+    txt += "".join(case["soltext"]) + case.get("blocks", "") + "END\n"
+    if case.get("keyword") == "ADVECTION":
+        n = case["n"]
+        txt += "ADVECTION\n -cells %d\n -shifts %d\n -punch_cells 1-%d\n -punch_frequency 1\n -print_frequency 1000000\nEND\n" % (n, case["shifts"], n)
+    else:
+        txt += transport_block(case, case.get("extra", ""))
+    return txt
+
+
+def column_geometry(rng, n, equal_len, dispersive, nmix_max=6):
+    l0 = "%.3g" % (10 ** rng.uniform(-2, 0.5))
+    lens = [l0 if equal_len else "%.3g" % (float(l0) * rng.uniform(0.5, 2.0)) for _ in range(n)]
+    lmin = min(float(x) for x in lens)
+    disps = ["%.3g" % (lmin * 10 ** rng.uniform(-1.5, -0.1)) if dispersive else "0" for _ in range(n)]
+    diffc = rng.choice(["0.3e-9", "1e-9", "2.5e-9"])
+    timest = "%.4g" % (rng.uniform(0.05, 0.3 * nmix_max) * lmin * lmin / float(diffc))
+    return lens, disps, diffc, timest
+
+
+def gen_rich_dispersive(rng):
+    """advective-dispersive / diffusive column with full chemistry, single diffusion coefficient"""
+    n = rng.choice([1, 2, 3, 4, 6, 8, 12, 16, 25, 40])
+    ishift = rng.choice([1, -1, 0])
+    lens, disps, diffc, timest = column_geometry(rng, n, rng.random() < 0.5, ishift != 0, nmix_max=4)
+    case = dict(kind="rich", n=n, ishift=ishift, bcf=rng.randint(1, 3), bcl=rng.randint(1, 3), corrd=rng.random() < 0.4,
+                lens=lens, disps=disps, diffc=diffc, timest=timest, lattice=False)
+    nmix, _, _ = mixf(case_cfg(case))
+    if nmix > 6 or n * nmix > 150:
+        return gen_rich_dispersive(rng)
+    case["shifts"] = rng.randint(1, max(1, min(8, 1500 // (n * max(1, nmix)))))
+    case["soltext"] = [rich_solution(rng, k) for k in range(n + 2)]
+    case["cols"] = RICH_COLS
+    case["elcols"] = ["m" + e for e in RICH_ELS]
+    return case
+
+
+def gen_inventory(rng, mode):
+    """closed, diffusion-only column. mode: single (one D, equal lengths) | mcd | implicit | solids | stagnant"""
+    n = rng.choice([1, 2, 3, 5, 8, 12, 20, 40]) if mode != "stagnant" else rng.choice([1, 2, 3, 5, 8])
+    equal = True if mode in ("single", "solids", "stagnant") else rng.random() < 0.5
+    lens, disps, diffc, timest = column_geometry(rng, n, equal, False, nmix_max=5)
+    closed2 = rng.choice([2, 3]) if mode in ("single", "solids") else 2
+    case = dict(kind="inventory", mode=mode, n=n, ishift=0, bcf=rng.choice([2, closed2]), bcl=closed2, corrd=rng.random() < 0.3,
+                lens=lens, disps=["0"] * n, diffc=diffc, timest=timest, lattice=False)
+    case["shifts"] = rng.randint(1, max(1, min(8, 300 // n)))
+    case["soltext"] = [rich_solution(rng, k) for k in range(n + 2)]
+    case["cols"] = RICH_COLS
+    case["elcols"] = ["m" + e for e in RICH_ELS] + ["mH", "mO"]
+    case["ncell_rows"] = list(range(1, n + 1))
+    extra = ""
+    if mode in ("mcd", "implicit"):
+        extra = " -multi_d true 1e-9 %.2f 0.05 1.0\n" % rng.uniform(0.1, 0.5)
+        if mode == "implicit":
+            extra += " -implicit true\n"
+    if mode == "solids":
+        b = ""
+        for k in range(1, n + 1):
+            if rng.random() < 0.8:
+                b += "EQUILIBRIUM_PHASES %d\n Calcite 0 %s\n" % (k, dec(round(rng.uniform(0, 0.01), 5)))
+                if rng.random() < 0.3:
+                    b += " Gypsum 0 %s\n" % dec(round(rng.uniform(0, 0.005), 5))
+            if rng.random() < 0.7:
+                b += "EXCHANGE %d\n X %s\n -equilibrate %d\n" % (k, dec(round(rng.uniform(0.001, 0.02), 5)), k)
+        case["blocks"] = b
+        case["cols"] = SYS_COLS + [("cb", "CHARGE_BALANCE")]
+        case["elcols"] = ["s" + e for e in SYS_ELS]
+    if mode == "stagnant":
+        # one stagnant layer; water of the immobile cells = th_im/th_m kg so that the mobile/immobile mix is conservative
+        th_m, th_im = rng.choice([(0.3, 0.1), (0.2, 0.2), (0.25, 0.05)])
+        w = dec(th_im / th_m)
+        for k in range(1, n + 1):
+            case["soltext"].append(rich_solution(rng, k + 1 + n, water=w))
+        extra += " -stagnant 1 %s %s %s\n" % (dec(10 ** rng.uniform(-7, -5.5)), dec(th_m), dec(th_im))
+        case["ncell_rows"] = list(range(1, n + 1)) + [k + 1 + n for k in range(1, n + 1)]
+        case["punch_to"] = 2 * n + 1
+    case["extra"] = extra
+    return case
+
+
+def gen_advect(rng):
+    """pure advection: ADVECTION keyword, or TRANSPORT without dispersivity and diffusion"""
+    n = rng.choice([1, 2, 3, 5, 8, 13, 21, 40])
+    kw = rng.choice(["ADVECTION", "TRANSPORT", "TRANSPORT"])
+    ishift = 1 if kw == "ADVECTION" else rng.choice([1, -1])
+    case = dict(kind="advect", keyword=kw, n=n, ishift=ishift, bcf=rng.choice([2, 3]), bcl=rng.choice([2, 3]), corrd=rng.random() < 0.5,
+                lens=["%.3g" % (10 ** rng.uniform(-2, 0.5))] * n, disps=["0"] * n, lattice=False)
+    case["diffc"], case["timest"] = rng.choice([("0", "3600"), ("0.3e-9", "0"), ("0", "0")])
+    case["shifts"] = rng.randint(1, max(1, min(n + 3, 600 // n)))
+    case["soltext"] = [rich_solution(rng, k, lo=0.05) for k in range(n + 2)]
+    case["cols"] = RICH_COLS
+    case["elcols"] = ["m" + e for e in RICH_ELS] + ["mH", "mO", "w"]
+    return case
+
+
+def first_rows(case, res):
+    """(state before the first shift {cell: row}, steps) ; boundary / ADVECTION rows come from the initial solutions"""
+    isol, init, steps = parse_rows(res)
+    if case.get("keyword") == "ADVECTION":
+        rows = vlib.table_dicts(res.get("tables", {}).get("1"))
+        steps = {}
+        for r in rows:
+            if r.get("state") == "advect":
+                steps.setdefault(r["step"], {})[r["soln"]] = r
+        return dict(isol), steps
+    start = dict(isol)
+    start.update(init)
+    return start, steps
+
+
+def engine_status(res):
+    if res.get("timeout"):
+        return "engine-timeout"
+    if res.get("crash"):
+        return "engine-crash"
+    if res.get("rc", 1) != 0:
+        return "engine-error"
+    return None
+
+
+def rel_close(o, e, scale=None):
+    o, e = Fr(o), Fr(e)
+    ref = abs(Fr(scale)) if scale is not None else abs(e)
+    return abs(o - e) <= TOL * ref + Fr(1, 10 ** 18)
+
+
+def check_range(case, res):
+    """every element amount per kg water (molality) in every cell stays within the range of the initial column
+    and boundary solutions (single diffusion coefficient)"""
+    st = engine_status(res)
+    if st:
+        return dict(status=st, detail=res.get("err", "")[-300:])
+    start, steps = first_rows(case, res)
+    n = case["n"]
+    for c in case["elcols"]:
+        if c in ("mH", "mO", "w"):
+            continue
+        try:
+            vals = [Fr(start[k][c]) / (Fr(start[k]["w"]) if "w" in start[k] else 1) for k in range(0, n + 2) if k in start]
+        except KeyError as ex:
+            return dict(status="missing-rows", detail=repr(ex))
+        lo, hi = min(vals), max(vals)
+        for s in sorted(steps):
+            for k in range(1, n + 1):
+                if k not in steps[s]:
+                    continue
+                v = Fr(steps[s][k][c]) / (Fr(steps[s][k]["w"]) if "w" in steps[s][k] else 1)
+                if v < lo - TOL * abs(lo) - Fr(1, 10 ** 15) or v > hi + TOL * abs(hi) + Fr(1, 10 ** 15):
+                    return dict(status="mismatch", what="range %s cell %d shift %d" % (c, k, s), observed=float(v),
+                                expected="[%r, %r]" % (float(lo), float(hi)), detail="")
+    return dict(status="ok", detail="")
+
+
+def check_inventory(case, res):
+    """closed diffusion-only column: the inventory of every element (and charge) is constant, relative 1e-9"""
+    st = engine_status(res)
+    if st:
+        return dict(status=st, detail=res.get("err", "")[-300:])
+    if "Negative concentration in MCD" in res.get("warn", "") and not case.get("ignore_added_mass_warning"):
+        return dict(status="engine-reports-added-mass", detail="")
+    isol, init, steps = parse_rows(res)
+    cells = case["ncell_rows"]
+    if not steps:
+        return dict(status="ok-nothing-moves", detail="")
+    try:
+        t0 = {c: sum(Fr(init[k][c]) for k in cells) for c in case["elcols"] + ["cb"]}
+        ion = sum(abs(t0[c]) for c in case["elcols"] if c not in ("mH", "mO", "sH", "sO"))
+        worst = (Fr(0), None)
+        bad = []
+        for s in sorted(steps):
+            if any(k not in steps[s] for k in cells):
+                continue            # rows of stagnant cells are punched only at the end of a shift
+            for c in case["elcols"] + ["cb"]:
+                ts = sum(Fr(steps[s][k][c]) for k in cells)
+                scale = ion if c == "cb" else abs(t0[c])
+                if scale == 0:
+                    if ts != 0:
+                        bad.append((c, s, float(ts), 0.0))
+                    continue
+                d = abs(ts - t0[c]) / scale
+                if d > worst[0]:
+                    worst = (d, c)
+                if d > TOL:
+                    bad.append((c, s, float(ts), float(t0[c])))
+    except KeyError as ex:
+        return dict(status="missing-rows", detail=repr(ex))
+    if bad:
+        # is it the known element-name-prefix repair (family sums conserved, members not)?
+        fam_ok = False
+        badcols = set(b[0] for b in bad)
+        for fam in PREFIX_FAMILIES:
+            if badcols and badcols <= set(fam) and all(f in t0 for f in fam):
+                f0 = sum(t0[f] for f in fam)
+                fam_ok = all(abs(sum(Fr(steps[s][k][f]) for k in cells for f in fam) - f0) <= TOL * abs(f0)
+                             for s in sorted(steps) if all(k in steps[s] for k in cells))
+        c, s, o, e = bad[0]
+        return dict(status="mismatch", what="inventory %s after shift %d" % (c, s), observed=o, expected=e,
+                    detail="relative %.3g" % (abs(o - e) / abs(e) if e else float("inf")), prefix_family=fam_ok)
+    return dict(status="ok", worst=float(worst[0]), detail="")
+
+
+def check_exact_shift(case, res):
+    """pure advection: the solution in cell i after a shift equals the previous solution of its upstream neighbour"""
+    st = engine_status(res)
+    if st:
+        return dict(status=st, detail=res.get("err", "")[-300:])
+    start, steps = first_rows(case, res)
+    n = case["n"]
+    up = 1 if case["ishift"] > 0 else -1
+    prev = start
+    for s in range(1, case["shifts"] + 1):
+        if s not in steps:
+            return dict(status="missing-rows", detail="shift %d" % s)
+        cur = dict(steps[s])
+        for k in range(1, n + 1):
+            src = k - up
+            srow = prev.get(src) if 1 <= src <= n else start.get(src)
+            if srow is None or k not in cur:
+                return dict(status="missing-rows", detail="cell %d shift %d" % (k, s))
+            for c in case["elcols"] + ["cb", "pH"]:
+                if c == "pH":
+                    # pH is compared only between two reaction-state rows (the pH of an initial-solution row is the input value)
+                    ok = srow.get("state") == "i_soln" or abs(cur[k][c] - srow[c]) <= 1e-7
+                elif c == "cb":
+                    ok = rel_close(cur[k][c], srow[c], scale=sum(abs(Fr(srow["m" + e])) for e in RICH_ELS))
+                else:
+                    ok = rel_close(cur[k][c], srow[c])
+                if not ok:
+                    return dict(status="mismatch", what="shift: %s cell %d shift %d (source cell %d)" % (c, k, s, src),
+                                observed=cur[k][c], expected=srow[c], detail="")
+        # boundary rows keep their initial values
+        for b in (0, n + 1):
+            if b not in cur and b in start:
+                cur[b] = start[b]
+        prev = cur
+    return dict(status="ok", detail="")
+
+
+# the defect found while building this check (notes/C11.md, finding 1); fixed input, stable key
+PREFIX_DEFECT_KEY = "multi_D-neg-conc-repair-prefix-match"
+
+
+def prefix_defect_case():
+    cols = [("mCa", 'TOTMOLE("Ca")'), ("mC", 'TOTMOLE("C")'), ("mCl", 'TOTMOLE("Cl")'), ("cb", "CHARGE_BALANCE"),
+            ("mH", 'TOTMOLE("H")'), ("mO", 'TOTMOLE("O")')]
+    sol = ["", "SOLUTION 1\n units mmol/kgw\n pH 1\n Cl 100 charge\n Ca 1\n C(4) 1\n",
+           "SOLUTION 2\n units mmol/kgw\n pH 3\n Cl 1 charge\n C(4) 1\n", ""]
+    return dict(kind="inventory", mode="mcd", n=2, ishift=0, bcf=2, bcl=2, corrd=False, lens=["0.1", "0.1"], disps=["0", "0"],
+                diffc="0.3e-9", timest="1e6", shifts=2, soltext=sol, cols=cols, elcols=["mC", "mCl", "mH", "mO"],
+                ncell_rows=[1, 2], extra=" -multi_d true 1e-9 0.5 0.05 1.0\n", lattice=False, ignore_added_mass_warning=True)
+    # Ca is absent from cell 2 and the electro-migration term drives its total negative there; the engine tops it up and says so
+    # ("Negative concentration in MCD: added ..."), so Ca itself is not in the list: the defect was that the top-up was
+    # silently taken out of element C (name prefix of Ca) instead.
+
+
+CHECKS = {"tracer": lambda case, res: compare_tracer_case(case, res),
+          "rich-model": lambda case, res: compare_tracer_case(case, res, elcols=case["elcols"]),
+          "range": check_range, "inventory": check_inventory, "exact-shift": check_exact_shift}
+
+
+def case_text(case):
+    return tracer_input(case) if case.get("kind", "tracer") == "tracer" else build_input(case)
+
+
+def slim(case):
+    return {k: v for k, v in case.items() if k not in ("sols", "soltext", "cols")}
+
+
+def report(ctx, check, case, txt, r, key=None):
+    what = "%s: %s observed=%r expected=%r %s" % (check, r.get("what", r["status"]), r.get("observed"), r.get("expected"), r.get("detail", ""))
+    ctx.violation(key or "%s:%s" % (check, vlib.key_of([check, slim(case), r.get("what")])), what,
+                  {"kind": "input", "check": check, "case": case, "input_text": txt, "database": "phreeqc.dat",
+                   "observed": r.get("observed"), "expected": r.get("expected"), "detail": r.get("detail", "")})
+
+
+# ----------------------------------------------------------------------------- T-gen
+
+def gen():
+    sys.path.insert(0, os.path.join(vlib.VERIF, "translator"))
+    import c11_initmix
+    c11_initmix.generate()
+
+
+# ----------------------------------------------------------------------------- the check
+
 def run(ctx):
-    raise NotImplementedError
+    import collections
+    if ctx.replay:
+        return run_replay(ctx)
+    proofs_ok = vlib.coq_stage(ctx, "Props/Properties_C11.vo", gen=gen)
+    rng = ctx.rng
+    stats = collections.Counter()
+    # if the proof stage broke, aim more cases at the model tie (section 5 of DESIGN.md)
+    boost = 1 if proofs_ok else 3
+    nA, nB, nC = ctx.n(24, 150) * boost, ctx.n(8, 40), ctx.n(50, 400) * boost
+    nR, nI, nV = ctx.n(24, 150), ctx.n(12, 60), ctx.n(24, 120)
+    jobs = []          # (check names, case)
+    for i in range(nA):
+        jobs.append((["tracer", "range"], gen_case(rng, True), "A"))
+    for i in range(nB):
+        jobs.append((["tracer", "range"], gen_case(rng, False, maxcells=5, budget=10), "B"))
+    for i in range(nC):
+        jobs.append((["tracer", "range"], gen_case(rng, False), "C"))
+    for i in range(nR):
+        jobs.append((["rich-model", "range"], gen_rich_dispersive(rng), "R"))
+    for mode in ("single", "mcd", "implicit", "solids", "stagnant"):
+        for i in range(nI if mode != "stagnant" else max(4, nI // 2)):
+            jobs.append((["inventory"], gen_inventory(rng, mode), "I-" + mode))
+    for i in range(nV):
+        jobs.append((["exact-shift", "range"], gen_advect(rng), "V"))
+    jobs.append((["inventory"], prefix_defect_case(), "known-defect"))
+    for (_, case, pool) in jobs:
+        if pool == "B":
+            case["shifts"] = min(case["shifts"], 2)
+        case.setdefault("kind", "tracer")
+        if case["kind"] == "tracer":
+            case["elcols"] = ["m" + t for t in TRACERS]
+    texts = [case_text(c) for (_, c, _) in jobs]
+    res = vlib.run_inputs([{"id": i, "db": "phreeqc.dat", "text": t, "flags": []} for i, t in enumerate(texts)],
+                          timeout_each=120, workers=6)
+    coq_terms = {}
+    for i, (checks, case, pool) in enumerate(jobs):
+        r0 = res.get(i, {"timeout": True})
+        for ck in checks:
+            collect = [] if (ck == "tracer" and pool in ("A", "B")) else None
+            if ck == "tracer":
+                r = compare_tracer_case(case, r0, collect=collect)
+            else:
+                r = CHECKS[ck](case, r0)
+            stats["%s/%s/%s" % (pool, ck, r["status"])] += 1
+            trivial = r["status"] != "ok"
+            ctx.case([ck, slim(case)], sample=dict(check=ck, pool=pool, case=slim(case), result={k: v for k, v in r.items() if k in ("status", "nmix", "worst")}),
+                     nontrivial=not trivial)
+            if r["status"] == "mismatch":
+                if pool == "known-defect" or r.get("prefix_family"):
+                    report(ctx, ck, prefix_defect_case(), case_text(prefix_defect_case()), r, key=PREFIX_DEFECT_KEY) if pool != "known-defect" \
+                        else report(ctx, ck, case, texts[i], r, key=PREFIX_DEFECT_KEY)
+                else:
+                    report(ctx, ck, case, texts[i], r)
+            elif r["status"] in ("missing-rows", "no-nmix", "engine-crash"):
+                report(ctx, ck, case, texts[i], r)
+            if collect:
+                # verified checker: a subset of columns and shifts (first, middle, last)
+                shifts = sorted(set([1, case["shifts"], (case["shifts"] + 1) // 2]))
+                colsel = ["mNa", "mCl", "cb"] if pool == "A" else ["mNa", "cb"]
+                items = [x for x in collect if x[0] in colsel and x[1] in shifts]
+                coq_terms[i] = coq_case_term(case, reported_nmix(r0), items)
+    out, logs = coq_run_cases(coq_terms, shards=6, timeout=ctx.n(600, 3000))
+    for i, v in out.items():
+        stats["coq-checker/%s" % v] += 1
+        if v is not True:
+            checks, case, pool = jobs[i]
+            report(ctx, "coq-checker", case, texts[i], dict(status="mismatch", what="check_case = %s (verified checker / mirror disagreement)" % v,
+                                                         observed=str(v), expected="true", detail=(logs[0][-300:] if logs else "")))
+    ctx.extra["input_distribution"] = dict(stats)
+    ctx.extra["pools"] = {"A": "lattice tracer columns (dyadic lengths/dispersivities, diffc = 2^-30): python mirror + Coq checker",
+                          "B": "small general tracer columns: python mirror + Coq checker",
+                          "C": "general tracer columns (1..40 cells, decimal inputs): python mirror",
+                          "R": "chemistry-rich dispersive/diffusive columns: python mirror for every element + range",
+                          "I-*": "closed diffusion-only columns: inventory constancy 1e-9 (single D equal lengths, MCD, implicit, solids via SYS(), stagnant)",
+                          "V": "pure advection (ADVECTION / TRANSPORT): exact shift"}
+    ctx.rule = ("random column set-ups inside the property's domain (cells 1..40, equal/unequal lengths, dispersivities incl. 0, diffc, time step, "
+                "shifts, forward/backward/diffusion_only, all boundary pairs, correct_disp); a case is non-trivial when the engine ran it and at least "
+                "one shift moved something (status ok); model comparison per cell and shift: |obs-exp| <= 1e-9*|exp| + propagated engine slack")
+    ctx.trusted += ["python mirror of the Coq model (props/c11.py: mixf/mix_step/one_shift) - cross-checked inside Coq against the model on pools A and B",
+                    "tolerance policy (1e-9 relative + the engine's own mass-balance acceptance sqrt(total*1e-25) per speciation) computed in python",
+                    "translator/c11_initmix.py (clang JSON AST of Phreeqc::init_mix -> Gallina leaf expressions and guard shapes)"]
+    ctx.notes += ["floating-point rounding of the engine is not modelled; cases whose 1.5*maxmix is within 1e-9 of an integer are skipped (counted as nmix-rounding-ambiguous)",
+                  "multicomponent / implicit diffusion and stagnant zones are covered by inventory checks only (no model)",
+                  "MCD runs in which the engine itself reports 'Negative concentration in MCD: added ...' are counted, not flagged"]
+
+
+def run_replay(ctx):
+    obj = json.load(open(ctx.replay))
+    if obj.get("kind") != "input":
+        # an obligation replay: rebuild the proofs
+        vlib.coq_stage(ctx, "Props/Properties_C11.vo", gen=gen)
+        return
+    case, ck, txt = obj["case"], obj["check"], obj["input_text"]
+    res = vlib.run_inputs([{"id": 0, "db": obj.get("database", "phreeqc.dat"), "text": txt, "flags": []}], timeout_each=300)[0]
+    if ck == "coq-checker":
+        col = []
+        r = compare_tracer_case(case, res, collect=col)
+        if r["status"] == "ok":
+            out, logs = coq_run_cases({0: coq_case_term(case, reported_nmix(res), col)}, shards=1)
+            if out[0] is not True:
+                r = dict(status="mismatch", what="check_case = %s" % out[0], observed=str(out[0]), expected="true")
+    else:
+        r = CHECKS[ck](case, res)
+    ctx.case([ck, slim(case)], sample=dict(check=ck, result=r.get("status")))
+    if r["status"] not in ("ok", "ok-nothing-moves"):
+        report(ctx, ck, case, txt, r, key=obj.get("key"))
